@@ -193,7 +193,18 @@ def rand_history(rng):
             ops.append(rand_rollback(rng))
             if prevs:
                 guess = prevs.pop()
-        elif r < 0.92:
+        elif r < 0.88:
+            gen += 1
+            arts = rand_arts(rng, gen)
+            kw = {}
+            if rng.random() < 0.3:
+                kw["sig"] = rng.choice(SIGS)
+            if rng.random() < 0.4:
+                kw["tam"] = rng.choice(TAMS)
+                if kw["tam"] == "dupman" and len(arts) >= 2:
+                    arts[1] = (arts[1][0], arts[0][1], arts[1][2], arts[1][3])
+            ops.append(mk_apply(rng.randrange(NVER), arts, **kw).replace("apply ", "plan ", 1))
+        elif r < 0.93:
             ops.append("clear")
         else:
             p = rng.choice(list(range(NP)) * 2 + AUX)
@@ -307,6 +318,14 @@ def systematic():
         out.append("h 1 %s ; %s ; edit p=%d f=d ; edit p=%d f=r9%d.600 ; %s ; %s ; edit p=%d f=x ; %s ; %s" % (
             fs0, mk_apply(2, av, ha="failed"), pk, av[(k + 1) % 3][0], k, mk_apply(2, av), mk_rollback(), pk,
             mk_apply(2, av, force=1), mk_rollback()))
+    # Plan (dry run) with every tamper / signature class, on a clean box and in the middle of an interrupted upgrade
+    ap = [(0, 20, "0755", "o"), (1, 21, "0644", "n")]
+    for tam in ["none"] + sorted(set(TAMS)):
+        for sig in ["ok"] + SIGS:
+            pl = mk_apply(2, ap, tam=tam, sig=sig).replace("apply ", "plan ", 1)
+            out.append("h 1 %s ; %s ; %s" % (fs0, pl, mk_apply(2, ap)))
+            if sig in ("ok", "none"):
+                out.append("h 1 %s ; %s ; %s ; %s" % (fs0, mk_apply(2, ap, ob=[(1, "s")], fail=[12]), pl, mk_rollback(rob=[])))
     # never-upgraded box (no current-manifest.yaml: version discovered from the binary = id 63)
     out.append("h 63 %s ; %s ; %s ; %s" % (fs0, mk_apply(2, a2f, prev="63o"), mk_rollback(), mk_apply(2, a2f, prev="63o", ha="failed")))
     out.append("h 63 %s ; %s ; %s ; %s" % (fs0, mk_apply(2, a2f, fail=[36]), mk_rollback(), mk_apply(2, a2f, force=1)))
@@ -410,7 +429,7 @@ def nontrivial(case, out):
 
 
 def inadmissible(op):
-    if not op.startswith("apply"):
+    if not op.startswith(("apply", "plan")):
         return False
     kv = dict(x.split("=", 1) for x in op.split()[1:])
     return kv["sig"] != "ok" or kv["tam"] != "none" or (kv["prev"] != "-" and kv["prev"][-1] != "o")
@@ -445,6 +464,10 @@ def classify(case, impl, model):
     for k, (a, b) in enumerate(zip(si, sm)):
         if a != b:
             fa, fb = fields(a), fields(b)
+            if k < len(ops) and ops[k].startswith("plan"):
+                prev = fields(si[k - 1]) if k else None
+                if "staging-left-behind" in a or prev is None or any(fa.get(x) != prev.get(x) for x in ("j", "cur", "sn", "fs", "ax")):
+                    return "P", "Plan (the dry run) changed installed state or left its staging directory behind at op #%d: impl=%r model=%r" % (k, a, b)
             if k < len(ops) and inadmissible(ops[k]):
                 prev = fields(si[k - 1]) if k else None
                 if prev is None or any(fa.get(x) != prev.get(x) for x in ("j", "cur", "sn", "fs")):
